@@ -111,6 +111,6 @@ JudgeSeq(rec) ==
 JudgeAny(rec) == IF rec.ev = "upseq" THEN JudgeSeq(rec) ELSE Judge(rec)
 
 Init == l \in 1..Len(Trace) /\ verdict = Pending
-Next == verdict.class = "pending" /\ verdict' = JudgeAny(Trace[l]) /\ UNCHANGED l
+Next == verdict.class = "pending" /\ verdict' = JudgeOrCrash(Trace[l], JudgeAny) /\ UNCHANGED l
 Spec == Init /\ [][Next]_vars
 =============================================================================
